@@ -13,6 +13,7 @@
 package main
 
 import (
+	"bufio"
 	"encoding/json"
 	"flag"
 	"fmt"
@@ -290,6 +291,31 @@ func runCase(o *hxlib.Out, sc *sidecar, idx int, name, src, sx, defect string, t
 	}
 	sc.write(rec)
 	o.Op(op, line)
+	if ssaOps != nil {
+		// SSA-level tie: one line per case, aligned with the op lines
+		sline := "c03 SSASKIP no-circuit"
+		if res.circ != nil {
+			sx, ops, reord, err := ssaOf(src, res.circ)
+			for k, n := range ops {
+				o.CountN("ssaop_"+k, n)
+			}
+			if err != nil {
+				reason := strings.Fields(err.Error())
+				o.Count("ssa_skipped")
+				o.Count("ssa_skip_" + strings.Join(reason[:hxlib.MinInt(3, len(reason))], "_"))
+				sline = "c03 SSASKIP " + strings.ReplaceAll(err.Error(), "\n", " ")
+			} else {
+				o.Count("ssa_programs")
+				if reord > 0 {
+					o.Count("ssa_programs_with_use_before_def")
+					o.CountN("ssa_steps_reordered", reord)
+				}
+				sline = "c03 SSA " + spec + " " + sx
+			}
+		}
+		ssaOps.WriteString(sline)
+		ssaOps.WriteByte('\n')
+	}
 	o.Count("programs")
 	o.CountN("evaluations", len(tuples))
 	if exh {
@@ -313,12 +339,14 @@ func tagsOf(p *Program) []string {
 }
 
 func modeGen(args []string) {
-	var srcs, defect string
+	var srcs, defect, ssaPath string
 	cf, o := hxlib.ParseCommon("gen", args, func(fs *flag.FlagSet) {
 		fs.StringVar(&srcs, "srcs", "", "sidecar file (JSON lines: source, tags per case)")
 		fs.StringVar(&defect, "defect", "", "force a probe class")
+		fs.StringVar(&ssaPath, "ssaops", "", "SSA-level op lines (one per case)")
 	})
 	defer o.Close()
+	defer openSSAOps(ssaPath)()
 	sc := &sidecar{}
 	if srcs != "" {
 		sc.f, _ = os.Create(srcs)
@@ -412,6 +440,21 @@ func modeSrc(args []string) {
 }
 
 var realStdout *os.File
+
+// ssaOps receives the SSA-level op lines (-ssaops F), nil when not requested.
+var ssaOps *bufio.Writer
+
+func openSSAOps(path string) func() {
+	if path == "" {
+		return func() {}
+	}
+	f, err := os.Create(path)
+	if err != nil {
+		panic(err)
+	}
+	ssaOps = bufio.NewWriterSize(f, 1<<20)
+	return func() { ssaOps.Flush(); f.Close() }
+}
 
 func main() {
 	if len(os.Args) < 2 {
